@@ -311,6 +311,7 @@ func lemmaParamsSeparate(p *mgmt.ControlArgs) {}
 //@   ensures [ok] verifStatus == 200 ==> verifMutCount == old(verifMutCount)+1 && verifMutKind == 3
 //@   ensures [refuse] verifStatus != 200 ==> verifMutCount == old(verifMutCount)
 //@   assert before FibStrategyTable.InsertNextHopEnc@1 [effect] faceID == specFaceOr(params.FaceId, inFace) && cost == specU64Or(params.Cost, 0)
+//@   assert before LogInfo@1 [effect-recorded] verifMutFace == specFaceOr(params.FaceId, inFace) && verifMutCost == specU64Or(params.Cost, 0)
 
 //@ func (*FIBModule).remove
 //@   requires specCmd(f.manager, interest) && specAuth()
@@ -319,6 +320,7 @@ func lemmaParamsSeparate(p *mgmt.ControlArgs) {}
 //@   ensures [ok] verifStatus == 200 ==> verifMutCount == old(verifMutCount)+1 && verifMutKind == 4
 //@   ensures [refuse] verifStatus != 200 ==> verifMutCount == old(verifMutCount)
 //@   assert before FibStrategyTable.RemoveNextHopEnc@1 [effect] faceID == specFaceOr(params.FaceId, inFace)
+//@   assert before LogInfo@1 [effect-recorded] verifMutFace == specFaceOr(params.FaceId, inFace)
 
 //@ func (*FIBModule).list
 //@   requires specCmd(f.manager, interest)
